@@ -9,7 +9,11 @@ checks = []
 for pid in ids:
     if pid not in PROPS:
         continue
-    c = PROPS[pid]
+    try:
+        c = PROPS[pid]
+    except Exception as e:
+        print("gen_manifest: config/%s.py is broken: %r" % (pid, e))
+        sys.exit(1)
     checks.append(dict(
         property_id=pid,
         quick_cmd="./check %s quick" % pid,
